@@ -920,3 +920,191 @@ func VerifC10_PackedInElement() {
 		vrt.Assert(vrt.PEq(want, got, &vrt.PSchema{Sub: map[int]*vrt.PSchema{1: {Packed: map[int]bool{1: true}}}}, 3), "C10.packed-in-element.equals-model")
 	}
 }
+
+func init() { vrt.Register("VerifC10_IntKeyKinds", VerifC10_IntKeyKinds) }
+
+// VerifC10_IntKeyKinds: M{map<KK,string> m=1; string t=2} for every integer key kind KK with one entry:
+// insert / replace / unset the key KV (values at the width boundaries of the kind); the entry written for an
+// inserted key carries the key in the kind's own encoding (varint, zig-zag, fixed32, fixed64).
+func VerifC10_IntKeyKinds() {
+	kinds := []proto.Type{proto.INT32, proto.SINT32, proto.SFIX32, proto.UINT32, proto.FIX32, proto.INT64, proto.SINT64, proto.SFIX64, proto.UINT64, proto.FIX64}
+	kk := kinds[vrt.Param("KK")]
+	var table []int64
+	switch kk {
+	case proto.INT32, proto.SINT32, proto.SFIX32:
+		table = []int64{5, -3, 2147483647, -2147483648, 300}
+	case proto.UINT32, proto.FIX32:
+		table = []int64{5, 4294967295, 2147483648, 300, 65536}
+	case proto.UINT64, proto.FIX64:
+		table = []int64{5, 1 << 40, 2147483648, 4294967296, 1<<62 + 1}
+	default:
+		table = []int64{5, 1 << 40, -(1 << 33), 2147483648, -2147483649}
+	}
+	kv := table[vrt.Param("KV")]
+	op := vrt.Param("OP") // 0 insert absent key, 1 replace existing, 2 unset existing
+	msg := proto.VerifNewMessage("M")
+	proto.VerifAddMap(msg, 1, "m", "m", proto.VerifBasic(kk), proto.VerifBasic(proto.STRING))
+	proto.VerifAddField(msg, 2, "t", "t", proto.VerifBasic(proto.STRING), false)
+	proto.VerifBuild(msg)
+	key := func(k int64) []byte {
+		switch kk {
+		case proto.SINT32, proto.SINT64:
+			return gpw.AppendVarint(gpw.AppendTag(nil, 1, gpw.VarintType), gpw.EncodeZigZag(k))
+		case proto.SFIX32, proto.FIX32:
+			return gpw.AppendFixed32(gpw.AppendTag(nil, 1, gpw.Fixed32Type), uint32(k))
+		case proto.SFIX64, proto.FIX64:
+			return gpw.AppendFixed64(gpw.AppendTag(nil, 1, gpw.Fixed64Type), uint64(k))
+		default:
+			return gpw.AppendVarint(gpw.AppendTag(nil, 1, gpw.VarintType), uint64(k))
+		}
+	}
+	entry := func(k int64, v []byte) []byte {
+		e := key(k)
+		e = gpw.AppendBytes(gpw.AppendTag(e, 2, gpw.BytesType), v)
+		return gpw.AppendBytes(gpw.AppendTag(nil, 1, gpw.BytesType), e)
+	}
+	v0, nv, tv := verifC10Str(1), verifC10Str(2), verifC10Str(1)
+	existing := int64(7)
+	if op != 0 {
+		existing = kv
+	}
+	tail := gpw.AppendBytes(gpw.AppendTag(nil, 2, gpw.BytesType), tv)
+	src := append(entry(existing, v0), tail...)
+	v := NewRootValue(msg, src)
+	var want []byte
+	var err error
+	if op == 3 {
+		// the tree form: Load (recursive) and Marshal reproduce the message, key included
+		pn := PathNode{Node: v.Node}
+		err = pn.Load(true, &Options{}, msg)
+		vrt.Assert(err == nil, "C10.intkey-kinds.load.noerror")
+		if err != nil {
+			return
+		}
+		out, err := pn.Marshal(&Options{})
+		vrt.Assert(err == nil, "C10.intkey-kinds.marshal.noerror")
+		if err != nil {
+			return
+		}
+		vrt.Reach("edited")
+		vrt.Dump("C10.intkey-kinds in ", src)
+		vrt.Dump("C10.intkey-kinds out", out)
+		_, ok := vrt.PFields(out)
+		vrt.Assert(ok, "C10.intkey-kinds.load-marshal.well-formed")
+		if ok {
+			vrt.Assert(vrt.PEq(src, out, &vrt.PSchema{Sub: map[int]*vrt.PSchema{1: {}}}, 3), "C10.intkey-kinds.load-marshal.equals-input")
+		}
+		return
+	}
+	switch op {
+	case 0:
+		_, err = v.SetByPath(NewNodeString(string(nv)), NewPathFieldId(1), NewPathIntKey(int(kv)))
+		want = append(append(entry(existing, v0), entry(kv, nv)...), tail...)
+	case 1:
+		_, err = v.SetByPath(NewNodeString(string(nv)), NewPathFieldId(1), NewPathIntKey(int(kv)))
+		want = append(entry(kv, nv), tail...)
+	default:
+		err = v.UnsetByPath(NewPathFieldId(1), NewPathIntKey(int(kv)))
+		want = tail
+	}
+	vrt.Assert(err == nil, "C10.intkey-kinds.noerror")
+	if err != nil {
+		return
+	}
+	vrt.Reach("edited")
+	got := v.Raw()
+	vrt.Dump("C10.intkey-kinds want", want)
+	vrt.Dump("C10.intkey-kinds got ", got)
+	_, ok := vrt.PFields(got)
+	vrt.Assert(ok, "C10.intkey-kinds.well-formed")
+	if ok {
+		vrt.Assert(vrt.PEq(want, got, &vrt.PSchema{Sub: map[int]*vrt.PSchema{1: {}}}, 3), "C10.intkey-kinds.equals-model")
+	}
+	if op != 2 {
+		g := v.GetByPath(NewPathFieldId(1), NewPathIntKey(int(kv)))
+		s, e2 := g.String()
+		vrt.Assert(e2 == nil && s == string(nv), "C10.intkey-kinds.readable-after")
+	}
+}
+
+func init() { vrt.Register("VerifC10_NestedByName", VerifC10_NestedByName) }
+
+// VerifC10_NestedByName: Req{Mid mid=1; repeated string ys=2}, Mid{string s=1; repeated string xs=2}: xs is the
+// last thing in mid and the enclosing message continues with records of the same number (ys).  Edits of
+// mid.xs addressed by field id or by field NAME (set existing, append, unset) touch mid.xs only.
+func VerifC10_NestedByName() {
+	byName := vrt.Param("BYNAME") != 0
+	ca, cb := vrt.Param("CA"), vrt.Param("CB")
+	op := vrt.Param("OP") // 0 set xs[IDX] (IDX == CA appends), 1 unset xs[IDX]
+	idx := vrt.Param("IDX")
+	if idx > ca || (op == 1 && idx >= ca) {
+		vrt.Reach("skip")
+		return
+	}
+	mid := proto.VerifNewMessage("Mid")
+	proto.VerifAddField(mid, 1, "s", "s", proto.VerifBasic(proto.STRING), false)
+	proto.VerifAddField(mid, 2, "xs", "xs", proto.VerifBasic(proto.STRING), true)
+	proto.VerifBuild(mid)
+	req := proto.VerifNewMessage("Req")
+	proto.VerifAddField(req, 1, "mid", "mid", mid, false)
+	proto.VerifAddField(req, 2, "ys", "ys", proto.VerifBasic(proto.STRING), true)
+	proto.VerifBuild(req)
+	fld := func(id proto.FieldNumber, name string) Path {
+		if byName {
+			return NewPathFieldName(name)
+		}
+		return NewPathFieldId(id)
+	}
+	sv := verifC10Str(1)
+	xs := make([][]byte, ca)
+	for i := range xs {
+		xs[i] = verifC10Str(1 + i%2)
+	}
+	ys := make([][]byte, cb)
+	for i := range ys {
+		ys[i] = verifC10Str(1)
+	}
+	nv := verifC10Str(2)
+	enc := func(xs [][]byte) []byte {
+		var m []byte
+		m = gpw.AppendBytes(gpw.AppendTag(m, 1, gpw.BytesType), sv)
+		for _, x := range xs {
+			m = gpw.AppendBytes(gpw.AppendTag(m, 2, gpw.BytesType), x)
+		}
+		b := gpw.AppendBytes(gpw.AppendTag(nil, 1, gpw.BytesType), m)
+		for _, y := range ys {
+			b = gpw.AppendBytes(gpw.AppendTag(b, 2, gpw.BytesType), y)
+		}
+		return b
+	}
+	src := enc(xs)
+	v := NewRootValue(req, src)
+	var want [][]byte
+	var err error
+	if op == 0 {
+		_, err = v.SetByPath(NewNodeString(string(nv)), fld(1, "mid"), fld(2, "xs"), NewPathIndex(idx))
+		want = append([][]byte{}, xs...)
+		if idx == ca {
+			want = append(want, nv)
+		} else {
+			want[idx] = nv
+		}
+	} else {
+		err = v.UnsetByPath(fld(1, "mid"), fld(2, "xs"), NewPathIndex(idx))
+		want = append(append([][]byte{}, xs[:idx]...), xs[idx+1:]...)
+	}
+	vrt.Assert(err == nil, "C10.nested-by-name.noerror")
+	if err != nil {
+		return
+	}
+	vrt.Reach("edited")
+	got := v.Raw()
+	exp := enc(want)
+	vrt.Dump("C10.nested-by-name want", exp)
+	vrt.Dump("C10.nested-by-name got ", got)
+	_, ok := vrt.PFields(got)
+	vrt.Assert(ok, "C10.nested-by-name.well-formed")
+	if ok {
+		vrt.Assert(vrt.PEq(exp, got, &vrt.PSchema{Sub: map[int]*vrt.PSchema{1: {}}}, 3), "C10.nested-by-name.equals-model")
+	}
+}
